@@ -1353,6 +1353,112 @@ def stale_error_vs_successor_case(run, rng, pv, idx):
             pc.safe_disconnect(conn)
 
 
+def disconnect_during_negotiation_reaction_case(run, rng, pv, idx):
+    """Delay injection inside the reaction to the status response during
+    connect()'s version negotiation: the networking thread has read the
+    response and is held at one statement of StatusReactor.react /
+    PlayingStatusReactor.handle_status (chosen by idx) while a user thread
+    calls disconnect().  After that call nothing must go on: no login
+    connection, no networking thread."""
+    import inspect
+    import sys
+    import minecraft
+    from minecraft.networking import connection as C
+    sites = []
+    for fn in (C.StatusReactor.react, C.PlayingStatusReactor.handle_status,
+               C.PlayingStatusReactor.handle_proto_version):
+        src, first = inspect.getsourcelines(fn)
+        for i, ln in enumerate(src[1:], 1):
+            t = ln.strip()
+            if t and not t.startswith('#') and not t.startswith(('elif', 'else')):
+                sites.append((fn.__code__, first + i, '%s:+%d %s' % (
+                    fn.__qualname__, i, t[:50])))
+    code, line, label = sites[idx % len(sites)]
+    others = [p for p in minecraft.SUPPORTED_PROTOCOL_VERSIONS if p != pv]
+    H = Harness(pv)
+    rec = pc.Recorder()
+    conn = None
+    held, release = threading.Event(), threading.Event()
+    armed = [True]
+    mon = sys.monitoring
+    TOOL = 4
+    w = {'pv': pv, 'case': idx, 'held_at': label}
+
+    def on_line(co, lineno):
+        if co is code and lineno == line and armed[0]:
+            armed[0] = False
+            held.set()
+            release.wait(6.0)
+        return None
+    try:
+        K = pc.monitored_connection_class()
+        conn = K('127.0.0.1', H.server.port, username='vfuser',
+                 allowed_versions={pv, rng.choice(others)},
+                 handle_exception=rec.handle_exception,
+                 handle_exit=rec.handle_exit)
+        conn.vf_log = rec.log
+        mon.use_tool_id(TOOL, 'vf-neg-hold')
+        mon.register_callback(TOOL, mon.events.LINE, on_line)
+        mon.set_local_events(TOOL, code, mon.events.LINE)
+        conn.connect()
+        if not held.wait(8.0):
+            run.count('negotiation_hold.line_never_reached')
+            return None
+        # (the held statement may lie inside a critical section that
+        # disconnect() has to wait for: the call is made by a helper and the
+        # thread is released when the call has returned or is blocked; what
+        # counts is what happens after the call has *returned*)
+        result = {}
+
+        def user():
+            try:
+                conn.disconnect(immediate=idx % 2 == 1)
+            except Exception as e:
+                result['raised'] = e
+            # client-side count of TCP connections made so far
+            result['generation'] = getattr(conn, 'vf_generation', 0)
+        t = threading.Thread(target=user, name='user-disconnect', daemon=True)
+        t.start()
+        t.join(0.3)
+        if t.is_alive():
+            run.count('disconnects_that_waited_for_the_reaction')
+        release.set()
+        t.join(10.0)
+        if t.is_alive():
+            return 'disconnect() did not return'
+        # let whatever the released thread does come about
+        time.sleep(0.3)
+        settled = pc.wait_idle(conn, 3.0)
+        run.count('disconnects_during_negotiation_reaction')
+        run.seen('negotiation_hold_sites', label)
+        later = getattr(conn, 'vf_generation', 0) - result['generation']
+        if 'raised' in result:
+            run.violation('disconnect/raised-during-negotiation',
+                          'disconnect() raised',
+                          dict(w, error=repr(result['raised'])))
+        if later or not settled:
+            run.violation('disconnect/negotiation-goes-on/after-status-reply',
+                          'disconnect() was called while the networking '
+                          'thread was reacting to the status reply of the '
+                          'version negotiation; after the call had returned '
+                          'the negotiation went on and opened the login '
+                          'connection',
+                          dict(w, connections_after_disconnect=later,
+                               networking_thread_alive=not settled))
+        return None
+    finally:
+        release.set()
+        try:
+            mon.set_local_events(TOOL, code, 0)
+            mon.register_callback(TOOL, mon.events.LINE, None)
+            mon.free_tool_id(TOOL)
+        except Exception:
+            pass
+        H.stop()
+        if conn is not None:
+            pc.safe_disconnect(conn)
+
+
 def two_connection_cases(run, rng, pv, idx):
     """Two Connection objects in one process, each with its own server
     session.  (a) Both are kicked at the same moment and each one's disconnect
@@ -1662,6 +1768,19 @@ def run(run):
         if err:
             run.inconclusive_because('stale error vs successor %d: %s'
                                      % (i, err))
+    for i in range(48 if thorough else 16):
+        if not run.mine(i):
+            continue
+        err = None
+        for attempt in range(3):
+            err = disconnect_during_negotiation_reaction_case(
+                run, rng, rng.choice((340, 404, 578, 757)), i)
+            if err is None:
+                break
+        run.case(('disconnect-during-negotiation-reaction', i))
+        if err:
+            run.inconclusive_because('disconnect during negotiation reaction '
+                                     '%d: %s' % (i, err))
     for i in range(64 if thorough else 16):
         if not run.mine(i):
             continue
